@@ -92,10 +92,19 @@ func Calls(fn *ssa.Function, deep bool, match func(name string, c ssa.CallInstru
 }
 
 // CallsNamed returns the calls of fn to any of the named callees.
+// AltName, when set by the loader, gives the current spelling of an anchored unexported function that no longer
+// exists under the requested name but exists in the other form (method <-> plain function) in the same package.
+var AltName func(name string) string
+
 func CallsNamed(fn *ssa.Function, deep bool, names ...string) []ssa.CallInstruction {
 	set := map[string]bool{}
 	for _, n := range names {
 		set[n] = true
+		if AltName != nil {
+			if a := AltName(n); a != "" {
+				set[a] = true
+			}
+		}
 	}
 	return Calls(fn, deep, func(n string, _ ssa.CallInstruction) bool { return set[n] })
 }
